@@ -1408,8 +1408,7 @@ fn c13(r: &Runner) {
     }
     // one GIANT width (65 536 bits = 1024 limbs): root and log start from a floating-point estimate whose absolute error
     // grows with the bit length; ordinary dense values and perfect powers +- 1, low degrees and ordinary bases
-    if !SWEEP {
-        let bits = 65_536usize;
+    for bits in if SWEEP { vec![] } else { vec![65_536usize, 131_072] } {
         let n = nlimbs(bits);
         let g = golden(2 * n + 8);
         let mut vals: Vec<BigUint> = vec![];
@@ -1428,8 +1427,21 @@ fn c13(r: &Runner) {
                 vals.extend([&p - 1u32, p.clone(), &p + 1u32]);
             }
         }
+        // powers of small bases just below the width, and their neighbours (the logarithm itself is then above 2^15 / 2^16:
+        // one ulp of a double at that size is larger than any fixed small margin)
+        for b in [3u32, 7, 10] {
+            let kmax = (bits as f64 / (b as f64).log2()).floor() as u32;
+            for k in [kmax - 1, kmax - 2, kmax - 3, kmax - 1000, kmax / 2 + 1, 65_600u32.min(kmax - 4), 65_601u32.min(kmax - 5)] {
+                let p = BigUint::from(b).pow(k);
+                if p.bits() as usize <= bits {
+                    vals.extend([&p - 1u32, p.clone(), &p + 1u32]);
+                }
+            }
+        }
         vals.push(pow2(bits) - 1u32);
         vals.push(pow2(bits - 1));
+        vals.sort();
+        vals.dedup();
         let lv: Vec<Limbs> = vals.iter().map(|v| to_limbs(v, bits)).collect();
         r.universe(&format!("GIANT U{bits}: root of {} dense values / perfect powers +- 1 with degrees 2, 3, 5, 7, 64; log to bases 3, 10, 2^64-1, 2^1000+1", lv.len()), bits, lv.len(), |i, l| {
             let a = vu(&lv[i]);
@@ -1437,7 +1449,7 @@ fn c13(r: &Runner) {
             for d in [2usize, 3, 5, 7, 64] {
                 exec(l, bits, Op::root, &[a.clone(), V::n(d)]);
             }
-            for b in [BigUint::from(3u32), BigUint::from(10u32), BigUint::from(u64::MAX), pow2(1000) + 1u32] {
+            for b in [BigUint::from(3u32), BigUint::from(7u32), BigUint::from(10u32), BigUint::from(u64::MAX), pow2(1000) + 1u32] {
                 exec(l, bits, Op::log, &[a.clone(), V::U(to_limbs(&b, bits))]);
             }
             exec(l, bits, Op::log2, &[a.clone()]);
